@@ -117,7 +117,11 @@ func cmdCheck(args []string) int {
 	if *obl != "" {
 		c.Ev.loadObligations(*obl, prop)
 	}
-	fn(c)
+	if c.Replay != "" {
+		runReplay(c, fn)
+	} else {
+		fn(c)
+	}
 	return c.finish()
 }
 
